@@ -311,7 +311,7 @@ Dispatch(w, f) ==
             IF ~open THEN Bogus(w)
             ELSE IF Has(w.slots[n].cons, f.consumer_tag) THEN Fatal(w, "DuplicateConsumerTag")
             ELSE \* the consumer's queue is created here and travels to the caller in the reply
-                 LET c == Field(f, "cname", f.consumer_tag)
+                 LET c == Field(f, "cname", f.consumer_tag \o "@" \o ToString(n))
                      w1 == [w EXCEPT !.slots[n].cons = Put(@, f.consumer_tag, c),
                                      !.cq = Put(@, c, [q |-> <<>>, tx |-> TRUE, unsure |-> FALSE, rx |-> TRUE])]
                  IN PushRep(w1, w.slots[n].h, OkRep(f))
